@@ -62,7 +62,7 @@ func partsOf(tf *token.File, n ast.Node, prefix string) []item {
 				continue // positioned at the following closing brace, which is not part of the node
 			}
 			if c.Pos().IsValid() && c.End().IsValid() {
-				out = append(out, item{prefix + f.Name, false, off(c.Pos()), off(c.End())})
+				out = append(out, item{prefix + f.Name, false, off(c.Pos()), off(realEnd(c))})
 			}
 		case f.Type.Kind() == reflect.Slice && f.Type.Elem().Implements(nodeType):
 			if fv.Len() == 0 {
